@@ -8,6 +8,7 @@
 using namespace vf;
 
 static std::vector<std::string> g_ev;
+static long long g_final = -1;                    // Semaphore::value() after all threads have finished (-1: the execution did not get there)
 struct Call { int op; long a, b; };
 static std::vector<size_t> g_pos;                 // calls completed per thread
 static std::vector<std::vector<Call>> g_prog;
@@ -26,7 +27,7 @@ static void write_out(const char* path, const vsched::Result& r, const std::vect
     std::string pr = "[";
     for (size_t i = 0; i < r.problems.size(); ++i) pr += std::string(i ? "," : "") + "\"" + r.problems[i] + "\"";
     pr += "]";
-    std::fprintf(f, "{\"e\":\"end\",\"blocked\":%s,\"blocked_req\":%s,\"problems\":%zu,\"problem_text\":%s,\"deadlock\":%s,\"diverged\":%s,\"steps\":%ld}\n", bl.c_str(), br.c_str(), r.problems.size(),
+    std::fprintf(f, "{\"e\":\"end\",\"final\":%lld,\"blocked\":%s,\"blocked_req\":%s,\"problems\":%zu,\"problem_text\":%s,\"deadlock\":%s,\"diverged\":%s,\"steps\":%ld}\n", g_final, bl.c_str(), br.c_str(), r.problems.size(),
                  pr.c_str(), r.deadlock ? "true" : "false", r.diverged ? "true" : "false", r.steps);
     std::fclose(f);
 }
@@ -96,6 +97,7 @@ static void child(const std::string& line, const char* outpath) {
         std::vector<vsched::thread> th;
         for (int t = 1; t <= N; ++t) th.emplace_back(body, t);
         for (auto& x : th) x.join();
+        g_final = (long long)sem.value();
     }, cfg);
     write_out(outpath, res, done, N);
     { vf::cov_flush(); _exit(0); }
